@@ -65,6 +65,24 @@ example : CHOOSE [.num (.int 0), .num (.int 7)] = .ok (.err .value) :=
 example : CHOOSE [.num (.int (-1)), .num (.int 7), .num (.int 8)] = .ok (.err .value) :=
   choose_outside (-1) _ (by simp) (by decide)
 
+/-- A value that is an ARRAY is chosen whole: `CHOOSE(i, {v1..vm})` has ONE value - index 1 addresses the array itself,
+    every other index is outside 1..1 (`#VALUE!`), whatever the array's length. -/
+theorem choose_array_value (i : Int) (xs : List Value) :
+    (i = 1 → CHOOSE [.num (.int i), .arr xs] = .ok (.arr xs)) ∧
+    (i ≠ 1 → CHOOSE [.num (.int i), .arr xs] = .ok (.err .value)) := by
+  constructor
+  · intro h
+    subst h
+    obtain ⟨_, h2⟩ := choose_spec 1 [.arr xs] (by decide) (by simp) (by decide)
+    simpa using h2
+  · intro h
+    exact choose_outside i [.arr xs] (by simp) (by
+      by_cases h1 : i < 1
+      · exact Or.inl h1
+      · right; left
+        simp only [List.length_cons, List.length_nil]
+        omega)
+
 /-- CHOOSE with no value to choose from is `#N/A` -/
 theorem choose_no_values (args : List Value) (h : args.length < 2) : CHOOSE args = .ok (.err .na) := by
   simp only [CHOOSE, h, if_true]
